@@ -75,6 +75,50 @@ def big_batch(k):
             'counters': {'orders_in_largest_batch': 8 * k}}
 
 
+# ------------------------------------------------------------------------------------------
+# part 4: cash bands.  With a fee model that charges something, a buy is submitted to a portfolio whose cash sits
+# just below / exactly at / just above the cost of the shares and the cost of shares + fees: it must still be
+# filled in full (a portfolio's cash may go negative; nothing in the statement lets the broker trim an order)
+# ------------------------------------------------------------------------------------------
+BAND_FEES = [('pct', '0.001', '0'), ('pct', '0.001', '0.005'), ('pct', '0.02', '0.01')]
+
+
+def cash_band_items(tier):
+    out = []
+    for fee in BAND_FEES if tier != 'quick' else BAND_FEES[:2]:
+        for tab in (0, 3, 5) if tier != 'quick' else (0, 5):
+            for asset in ('A', 'Bq'):
+                for qty in (1, 7, 1000):
+                    out.append((fee, tab, asset, qty))
+    return out
+
+
+def cash_band(item):
+    from fractions import Fraction
+    fee, tab, asset, qty = item
+    ask = bm.F(bm.QUOTES[tab][asset][1])
+    pq = ask * qty
+    rate = bm.F(fee[1]) + bm.F(fee[2])
+    cost = rate * abs(round(pq))
+    levels = [pq - Fraction(1, 100), pq, pq + cost / 2, pq + cost - Fraction(1, 10000), pq + cost, pq + cost + Fraction(1, 100)]
+    viols, n = [], 0
+    for lv in levels:
+        if lv <= 0:
+            continue
+        cash = '%.6f' % float(lv)
+        hist = (('acct_sub', '200000000'), ('create', '1'), ('pf_sub', '1', cash), ('quotes', tab), ('tick', 1),
+                ('submit', '1', asset, qty), ('tick', 3), ('tick', 4))
+        for cut in (len(hist) - 1, len(hist)):
+            m, fails = bm.build(fee, hist[:cut], check_last=True)
+            n += 1
+            viols += [dict(f, case={'harness': 'cash_band', 'item': [list(fee), tab, asset, qty]})
+                      for f in fails if f['clause'].startswith('C04.')]
+        if viols:
+            break
+    return {'viols': viols[:4], 'execs': n, 'evals': n, 'nontrivial': True, 'outcome': ('band', tab, asset, qty),
+            'counters': {'cash_band_histories': n}}
+
+
 def run(tier, res, is_known):
     depth = 5 if tier == 'quick' else 7
     res.rule = ('BFS over interleavings of submissions (2 portfolios x 2 assets x buy/sell) with clock updates '
@@ -101,6 +145,9 @@ def run(tier, res, is_known):
             label='long periodic histories', chunk=4)
     # many orders in ONE batch: k buys and k sells of both assets queued before a single update
     product(big_batch, [4, 9, 30, 100], res, is_known, label='large single batches', chunk=1)
+    if any(not is_known(v) for v in res.violations):
+        return
+    product(cash_band, cash_band_items(tier), res, is_known, label='cash at the cost of the shares / of shares + fees', chunk=4)
     res.rule += ('; part 2: every day of %s x 13 boundary times: two pending orders and one clock update on a fresh real '
                  'broker - filled iff Mon-Fri 14:30 <= t < 21:00 UTC' % years)
 
@@ -112,11 +159,14 @@ def replay(case):
         return bm.replay_periodic(case, 'C04.')
     if case.get('harness') == 'big_batch':
         return big_batch(case['k'])['viols']
+    if case.get('harness') == 'cash_band':
+        it = case['item']
+        return cash_band((tuple(it[0]), it[1], it[2], it[3]))['viols']
     return bm.replay_broker(case, 'C04.')
 
 
 def minimise(case, clause):
-    if case.get('harness') in ('hours', 'periodic', 'big_batch'):
+    if case.get('harness') in ('hours', 'periodic', 'big_batch', 'cash_band'):
         return case
     return bm.minimise_broker(case, clause, 'C04.')
 
